@@ -1,16 +1,30 @@
 #!/bin/bash
 # usage: tools/run_seeded.sh [<seeded-dir-name> ...]   (default: all)
-# Applies each seeded change to /repo, runs the check of the property it breaks (quick tier),
-# and undoes it straight afterwards. Prints DETECTED / MISSED per change.
+# Applies each seeded change, runs the check of the property it breaks (quick tier), and undoes
+# it straight afterwards. Prints DETECTED / MISSED per change.
+# Default: the change is applied to /repo itself (git apply / git checkout -- .), as a user of the
+# registered commands would. SEEDED_WT=<dir>: a scratch worktree of /repo is created there and
+# used instead (VERIF_REPO), so that /repo is never touched - for use while other runs read /repo.
 cd "$(dirname "$0")/.." || exit 2
 names=("$@"); [ ${#names[@]} -eq 0 ] && names=($(ls seeded))
 rc=0
+tree=/repo
+if [ -n "$SEEDED_WT" ]; then
+	git -C /repo worktree add --detach "$SEEDED_WT" HEAD > /dev/null 2>&1 || { echo "cannot create worktree $SEEDED_WT"; exit 2; }
+	tree="$SEEDED_WT"
+	export VERIF_REPO="$SEEDED_WT"
+fi
 for n in "${names[@]}"; do
-	d="seeded/$n"; prop=$(python3 -c "import json;print(json.load(open('$d/meta.json'))['breaks_property'])")
-	if ! git -C /repo diff --quiet; then echo "/repo has uncommitted changes"; exit 2; fi
-	if ! git -C /repo apply "$PWD/$d/patch.diff" 2>/dev/null; then echo "$n: PATCH DOES NOT APPLY"; rc=1; continue; fi
-	VERIF_OUT="$PWD/build/seeded_out" ./run "$prop" quick > build/seeded_$n.log 2>&1; code=$?
-	git -C /repo checkout -- .
+	d="seeded/$n"; prop=$(python3 -c "import json;print(json.load(open('$d/meta.json'))['detected_by']['check'])")
+	if ! git -C $tree diff --quiet; then echo "$tree has uncommitted changes"; exit 2; fi
+	if ! git -C $tree apply "$PWD/$d/patch.diff" 2>/dev/null; then echo "$n: PATCH DOES NOT APPLY"; rc=1; continue; fi
+	if [ -n "$SEEDED_WT" ]; then ./run "$prop" quick > build/seeded_$n.log 2>&1; code=$?
+	else VERIF_OUT="$PWD/build/seeded_out" ./run "$prop" quick > build/seeded_$n.log 2>&1; code=$?; fi
+	git -C $tree checkout -- .
 	if [ $code -eq 1 ] && grep -q "^VIOLATION property=$prop" build/seeded_$n.log; then echo "$n: DETECTED by $prop quick ($(grep -c '^VIOLATION' build/seeded_$n.log) signatures)"; else echo "$n: MISSED (exit $code)"; rc=1; fi
 done
+if [ -n "$SEEDED_WT" ]; then
+	git -C /repo worktree remove --force "$SEEDED_WT"; git -C /repo worktree prune
+	rm -rf "build/alt$(echo "$SEEDED_WT" | tr '/' '_')"
+fi
 exit $rc
